@@ -12,6 +12,8 @@ Record pcase := {
   c_perfile : list (option (list nat));   (* by file number; None = lint_file raises *)
   c_rep_nil : list nat;                   (* finalize() of fresh rule instances *)
   c_rep_full : list nat;                  (* finalize() after lint_file of every file, in order *)
+  c_seen : list bool;                     (* by file number: the raw-path exclusion / ignore test lets the file through *)
+  c_rep_seen : list nat;                  (* finalize() after lint_file of the files let through, in order *)
   c_mw : option nat;                      (* max_workers argument *)
   c_cpu : nat;                            (* multiprocessing.cpu_count() *)
   c_sched : list nat;                     (* the order in which as_completed yielded the futures *)
@@ -34,25 +36,34 @@ Definition files_of (c : pcase) : list nat := seq 0 (nfiles c).
 Definition m_perfile (c : pcase) (f : nat) : option (list violation) :=
   match nth f (c_perfile c) None with None => None | Some l => Some (look c l) end.
 
+Definition m_sees (c : pcase) (f : nat) : bool := nth f (c_seen c) true.
+Definition seen_files (c : pcase) : list nat := filter (m_sees c) (files_of c).
+
 Definition m_report (c : pcase) (ev : list nat) : list violation :=
   match ev with
   | [] => look c (c_rep_nil c)
-  | _ => if list_eqb Nat.eqb ev (files_of c) then look c (c_rep_full c) else [poison]
+  | _ => if list_eqb Nat.eqb ev (files_of c) then look c (c_rep_full c)
+         else if list_eqb Nat.eqb ev (seen_files c) then look c (c_rep_seen c)
+         else [poison]
   end.
 
 Definition m_seq (c : pcase) : option (list violation) :=
   seq_run nat nat (m_perfile c) (fun f => f) (m_report c) (files_of c).
 
 Definition m_par (q : pquirks) (c : pcase) : option (list violation) :=
-  par_run nat nat (m_perfile c) (fun f => f) (m_report c) q (c_mw c) (c_cpu c) (c_sched c) (files_of c).
+  par_run nat nat (m_perfile c) (fun f => f) (m_report c) (m_sees c) q (c_mw c) (c_cpu c) (c_sched c) (files_of c).
 
 Definition with_flag (i : nat) (q : pquirks) : pquirks :=
   match i with
-  | 0 => {| q_par_crossfile_lost := false; q_worker_swallows_errors := q_worker_swallows_errors q |}
-  | _ => {| q_par_crossfile_lost := q_par_crossfile_lost q; q_worker_swallows_errors := false |}
+  | 0 => {| q_par_crossfile_lost := false; q_parent_evidence_raw_path := q_parent_evidence_raw_path q;
+            q_worker_swallows_errors := q_worker_swallows_errors q |}
+  | 1 => {| q_par_crossfile_lost := q_par_crossfile_lost q; q_parent_evidence_raw_path := false;
+            q_worker_swallows_errors := q_worker_swallows_errors q |}
+  | _ => {| q_par_crossfile_lost := q_par_crossfile_lost q; q_parent_evidence_raw_path := q_parent_evidence_raw_path q;
+            q_worker_swallows_errors := false |}
   end.
 
-Definition candidates (q : pquirks) : list pquirks := [q; with_flag 0 q; with_flag 1 q; ideal].
+Definition candidates (q : pquirks) : list pquirks := [q; with_flag 0 q; with_flag 1 q; with_flag 2 q; ideal].
 
 Definition cmd_of (c : pcase) : option (rfilter * nat * nat) :=
   match c_cmd c with None => None | Some n => assoc n cli_commands end.
@@ -73,7 +84,7 @@ Definition domain_ok (c : pcase) : bool :=
   forallb wf_violation
     (List.concat (map (fun o : option (list nat) => match o with Some l => look c l | None => [] end) (c_perfile c)))
   && forallb wf_violation (look c (c_rep_full c)) && forallb wf_violation (look c (c_rep_nil c))
-  && is_perm_of_range (c_sched c) (nfiles c)
+  && is_perm_of_range (c_sched c) (nfiles c) && (List.length (c_seen c) =? nfiles c)
   && match c_cmd c with None => true | Some n => match assoc n cli_commands with Some _ => true | None => false end end.
 
 (* the class of C07_errors_swallowed: some file raises, the worker pool is used, the handlers swallow: the
